@@ -53,6 +53,38 @@ func renderTok(tok string, parts []Part) (string, bool, bool) {
 
 var bashReserved = map[string]bool{"if": true, "then": true, "else": true, "elif": true, "fi": true, "do": true, "done": true, "while": true, "for": true, "in": true, "case": true, "esac": true, "function": true}
 
+// expandStackHoles: a name read back from a construct stack (⟨field:forVars[*]⟩) is the name
+// its opener pushed: the hole is replaced by every template stored on that stack, so that a
+// name does not disappear from the inventory because it travels through a stack.
+func expandStackHoles(b *Backend, t Tmpl) []Tmpl {
+	out := []Tmpl{{}}
+	for _, p := range t {
+		var alts []Tmpl
+		if h, ok := p.(Hole); ok && strings.HasPrefix(h.Origin, "field:") && strings.Contains(h.Origin, "[*]") {
+			for _, st := range b.X.ResolveStackStores(h.Origin) {
+				alts = append(alts, st.T)
+			}
+		}
+		if len(alts) == 0 {
+			alts = []Tmpl{{p}}
+		}
+		if len(alts) > 4 {
+			alts = alts[:4]
+		}
+		var next []Tmpl
+		for _, o := range out {
+			for _, a := range alts {
+				next = append(next, cat(append(Tmpl{}, o...), a))
+			}
+		}
+		out = next
+		if len(out) > 16 {
+			out = out[:16]
+		}
+	}
+	return out
+}
+
 func c10CollectBash(w *World, b *Backend) []ownedName {
 	var out []ownedName
 	add := func(tok string, parts []Part, space, where, pos string) {
@@ -66,43 +98,45 @@ func c10CollectBash(w *World, b *Backend) []ownedName {
 		if l.Bash == nil || l.Bash.Comment {
 			continue
 		}
-		txt, parts := flattenPUA(l.Variant)
 		where := lineKey(l)
 		pos := w.Pos(l.Em.Pos)
-		// assignment targets (also after local), function definitions, read targets
-		for _, m := range regexp.MustCompile(`(?:^|[ ;(]|local )([A-Za-z_\x{E000}-\x{F8FF}][A-Za-z0-9_\x{E000}-\x{F8FF}]*)=`).FindAllStringSubmatchIndex(txt, -1) {
-			// NAME= cmd … (empty value directly followed by a command word) sets NAME for that
-			// command only; the shell variable of that name is not assigned
-			if rest := txt[m[1]:]; len(rest) > 1 && rest[0] == ' ' && rest[1] != ' ' && rest[1] != ';' && rest[1] != '#' {
-				continue
+		for _, variant := range expandStackHoles(b, l.Variant) {
+			txt, parts := flattenPUA(variant)
+			// assignment targets (also after local), function definitions, read targets
+			for _, m := range regexp.MustCompile(`(?:^|[ ;(]|local )([A-Za-z_\x{E000}-\x{F8FF}][A-Za-z0-9_\x{E000}-\x{F8FF}]*)=`).FindAllStringSubmatchIndex(txt, -1) {
+				// NAME= cmd … (empty value directly followed by a command word) sets NAME for that
+				// command only; the shell variable of that name is not assigned
+				if rest := txt[m[1]:]; len(rest) > 1 && rest[0] == ' ' && rest[1] != ' ' && rest[1] != ';' && rest[1] != '#' {
+					continue
+				}
+				add(txt[m[2]:m[3]], parts, "var", where, pos)
 			}
-			add(txt[m[2]:m[3]], parts, "var", where, pos)
-		}
-		if m := regexp.MustCompile(`^([A-Za-z_\x{E000}-\x{F8FF}][A-Za-z0-9_\x{E000}-\x{F8FF}]*)\(\) \{`).FindStringSubmatch(txt); m != nil {
-			add(m[1], parts, "func", where, pos)
-		}
-		// ${name...} and $name expansions
-		for _, m := range regexp.MustCompile(`\$\{#?([A-Za-z_\x{E000}-\x{F8FF}][A-Za-z0-9_\x{E000}-\x{F8FF}]*)`).FindAllStringSubmatch(txt, -1) {
-			add(m[1], parts, "var", where, pos)
-		}
-		// arithmetic for-loop variables
-		if i := strings.Index(txt, "(("); i >= 0 && strings.HasPrefix(txt, "for") {
-			for _, m := range regexp.MustCompile(`([A-Za-z_][A-Za-z0-9_]*)[=<+]`).FindAllStringSubmatch(txt[i:], -1) {
+			if m := regexp.MustCompile(`^([A-Za-z_\x{E000}-\x{F8FF}][A-Za-z0-9_\x{E000}-\x{F8FF}]*)\(\) \{`).FindStringSubmatch(txt); m != nil {
+				add(m[1], parts, "func", where, pos)
+			}
+			// ${name...} and $name expansions
+			for _, m := range regexp.MustCompile(`\$\{#?([A-Za-z_\x{E000}-\x{F8FF}][A-Za-z0-9_\x{E000}-\x{F8FF}]*)`).FindAllStringSubmatch(txt, -1) {
 				add(m[1], parts, "var", where, pos)
 			}
-		}
-		for _, c := range l.Bash.Cmds {
-			if c.Name == "read" && len(c.Words) > 0 {
-				last := c.Words[len(c.Words)-1]
-				// words use \x00/\x01 placeholders; recover through the text instead
-				_ = last
-				if m := regexp.MustCompile(`read(?: -[a-zA-Z]+)*(?: -p "[^"]*")? ([A-Za-z_\x{E000}-\x{F8FF}][A-Za-z0-9_\x{E000}-\x{F8FF}]*)$`).FindStringSubmatch(txt); m != nil {
+			// arithmetic for-loop variables
+			if i := strings.Index(txt, "(("); i >= 0 && strings.HasPrefix(txt, "for") {
+				for _, m := range regexp.MustCompile(`([A-Za-z_][A-Za-z0-9_]*)[=<+]`).FindAllStringSubmatch(txt[i:], -1) {
 					add(m[1], parts, "var", where, pos)
 				}
 			}
-			if reIdentTok.MatchString(c.Name) && !strings.ContainsAny(c.Name, "\x00\x01") && !bashReserved[c.Name] && c.Name != "(list)" {
-				if _, isHelper := b.Helpers[c.Name]; !isHelper && regexp.MustCompile(`^[A-Za-z_][A-Za-z0-9_]*$`).MatchString(c.Name) {
-					out = append(out, ownedName{pattern: c.Name, space: "cmd", where: where, pos: pos})
+			for _, c := range l.Bash.Cmds {
+				if c.Name == "read" && len(c.Words) > 0 {
+					last := c.Words[len(c.Words)-1]
+					// words use \x00/\x01 placeholders; recover through the text instead
+					_ = last
+					if m := regexp.MustCompile(`read(?: -[a-zA-Z]+)*(?: -p "[^"]*")? ([A-Za-z_\x{E000}-\x{F8FF}][A-Za-z0-9_\x{E000}-\x{F8FF}]*)$`).FindStringSubmatch(txt); m != nil {
+						add(m[1], parts, "var", where, pos)
+					}
+				}
+				if reIdentTok.MatchString(c.Name) && !strings.ContainsAny(c.Name, "\x00\x01") && !bashReserved[c.Name] && c.Name != "(list)" {
+					if _, isHelper := b.Helpers[c.Name]; !isHelper && regexp.MustCompile(`^[A-Za-z_][A-Za-z0-9_]*$`).MatchString(c.Name) {
+						out = append(out, ownedName{pattern: c.Name, space: "cmd", where: where, pos: pos})
+					}
 				}
 			}
 		}
